@@ -23,6 +23,13 @@ CLAIMED = {
         'analyser, generator, parser and flattening entry gates dominate the code they protect; document roots and import-source models are tested before use. Absence of all undefined behaviour is not claimed.',
    note='Trusted: clang AST/CFG/call graph, C++ exception specifications, libxml2 contracts named in the exemption reasons. Seven unguarded units-reference recursions are listed as known findings (replayed stack exhaustion on units a->b->a); three crash defects were repaired.',
    ref='DESIGN.md section 4, C01'),
+ 'C04': dict(
+   technique='static analysis: traversal-completeness rules over a frozen caller->callee table (full loops, no early exit, no extra guards), dedupe-set discipline, cited-rule floor, vocabulary agreement between validator and analyser',
+   text='The validator traversals that reach every component, variable, reset, units and identifier are complete (full child loops, no early exit, descent under no condition but the per-entity import exemption decided on the entity itself); '
+        '"reported" sets are extended only where their membership test guarded the report; every reference rule cited when the check was written is still cited by an error-level site; the MathML elements accepted by the validator are exactly those the analyser dispatches; '
+        'every created issue is described and added. Necessary conditions of "every rule violation is reported"; rule predicates and false positives are not decided.',
+   note='Trusted: clang AST/CFG; the frozen traversal table and rule floor (sa/tables/validator_rules.json).',
+   ref='DESIGN.md section 4, C04'),
  'C07': dict(
    technique='static analysis: history-test dominance on import recursion, interprocedural fails=>logged summaries, CFG ordering rules (fresh start, commit-on-success), dataflow slices (normalised keys, base path)',
    text='Every recursive step along an import is dominated by a history test whose history is handed on; every path on which a fetch/check function, resolveImports or flattenModel yields its failure value has added an issue; '
